@@ -161,7 +161,7 @@ pub fn c09_history(h: &History, rep: &mut Report) {
 
 pub fn work_c09(ctx: &Ctx, rep: &mut Report) {
     let (maxw, maxh) = if ctx.thorough { (120, 40) } else { (40, 12) };
-    let n = ctx.scale(300_000, 3_000_000);
+    let n = ctx.scale(300_000, 10_000_000);
     for u in ctx.units(n) {
         let mut r = Rng::derive(ctx.seed, &[0xC09, 1, u as u64]);
         // widths: every width of the tier is visited in turn, heights random
@@ -187,7 +187,7 @@ fn no_alt_profile() -> Profile {
 
 pub fn work_c10(ctx: &Ctx, rep: &mut Report) {
     let (maxw, maxh) = if ctx.thorough { (200, 60) } else { (40, 12) };
-    let n = ctx.scale(200_000, 2_000_000);
+    let n = ctx.scale(200_000, 4_000_000);
     let prof = no_alt_profile().size(14, 8).length((1, 5), (1, 7));
     for u in ctx.units(n) {
         let mut r = Rng::derive(ctx.seed, &[0xC10, 1, u as u64]);
@@ -379,7 +379,7 @@ pub fn c12_history(h: &History, rep: &mut Report) {
 
 pub fn work_c12(ctx: &Ctx, rep: &mut Report) {
     let prof = Profile::general().with(T_RIS, 1).with(T_MALFORMED, 3).with(T_STR, 4).with(T_SOUP, 3).resizes(0).length((1, 1), (2, 14));
-    let n = ctx.scale(100_000, 1_000_000);
+    let n = ctx.scale(100_000, 5_000_000);
     for u in ctx.units(n) {
         let mut r = Rng::derive(ctx.seed, &[0xC12, 1, u as u64]);
         let mut h = gen::history(&mut r, &prof);
@@ -507,7 +507,7 @@ pub fn c14_history(h: &History, rep: &mut Report) {
 
 pub fn work_c14(ctx: &Ctx, rep: &mut Report) {
     let prof = c14_profile();
-    let n = ctx.scale(100_000, 1_000_000);
+    let n = ctx.scale(100_000, 2_000_000);
     for u in ctx.units(n) {
         let mut r = Rng::derive(ctx.seed, &[0xC14, 1, u as u64]);
         let mut h = gen::history(&mut r, &prof);
@@ -679,7 +679,7 @@ pub fn c16_history(h: &History, rep: &mut Report) {
 }
 
 pub fn work_c16(ctx: &Ctx, rep: &mut Report) {
-    let n = ctx.scale(150_000, 1_500_000);
+    let n = ctx.scale(150_000, 4_000_000);
     let pprof = Profile::general().with(T_ALT, 0).with(T_RIS, 0).with(T_TEXT, 40).resizes(3).length((1, 6), (1, 7)).size(12, 7).limits(LIMITS_HALF_NONE);
     let eprof = excursion_profile();
     for u in ctx.units(n) {
@@ -834,7 +834,7 @@ pub fn c19_history(h: &History, rep: &mut Report) {
 }
 
 pub fn work_c19(ctx: &Ctx, rep: &mut Report) {
-    let n = ctx.scale(100_000, 1_000_000);
+    let n = ctx.scale(100_000, 4_000_000);
     let prof = Profile::general().boost(&[T_ALT, T_SAVE, T_MODE, T_STBM, T_TABS, T_CHARSET, T_SGR], 2).with(T_MALFORMED, 4).with(T_STR, 3).resizes(8);
     let cprof = Profile::general().resizes(5).length((1, 4), (1, 6));
     let pr = probes();
